@@ -202,7 +202,15 @@ pub fn install_quiet_panic_hook() {
         } else {
             "<non-string panic>".to_string()
         };
-        if msg.contains("outside of a Shuttle test") || msg.contains("seam used outside a simulation") || msg.contains("called outside a simulation") {
+        // Also: all simulated threads share one OS thread, hence one set of std thread-locals. A tree that keeps a
+        // RefCell in a thread_local! and holds the borrow across a (simulated) blocking call collides with itself here
+        // in a way real threads cannot; that is a limit of this engine, not a finding.
+        if msg.contains("outside of a Shuttle test")
+            || msg.contains("seam used outside a simulation")
+            || msg.contains("called outside a simulation")
+            || msg.contains("already borrowed")
+            || msg.contains("already mutably borrowed")
+        {
             FOREIGN_THREAD.store(true, std::sync::atomic::Ordering::SeqCst);
         }
         let loc = info.location().map(|l| format!(" at {}:{}", l.file(), l.line())).unwrap_or_default();
